@@ -5,7 +5,10 @@ use crate::sim::{run, Ev, RunOpts};
 use crate::spec::*;
 
 fn still(check: &dyn Check, scn: &Scenario, sig: &str, budget: &mut u32, work: &mut u64) -> Option<Report> {
-    if *budget == 0 || *work == 0 {
+    // besides the deterministic work budget, a CPU-time budget (seam events are cheap or dear
+    // depending on the tree size behind them): it only decides how small the replay file gets,
+    // never a verdict
+    if *budget == 0 || *work == 0 || crate::runner::cpu_deadline_passed() {
         *budget = 0;
         return None;
     }
